@@ -51,8 +51,8 @@ RULE = ("case = one generated scenario (layer tree shape flat / group / nested /
 ASSUMPTIONS = [
     "U / I are the union / intersection of the geometry transformed vertex by vertex (pyproj) and transformed after "
     "densifying every edge to 1/200 of its extent; rasterised with shapely on pixel centres after geometric buffering in "
-    "pixel units. A pixel 'lies more than one pixel outside' when its CENTRE is more than 1.5 px from U (1 px of the property "
-    "+ half a pixel for the pixel's own extent; PIL draws polygon outlines through integer pixel indices, which alone puts "
+    "pixel units. A pixel 'lies more than one pixel outside' when its CENTRE is more than 1.75 px from U (1 px of the property "
+    "+ 0.71 px, the half diagonal of the pixel; PIL draws polygon outlines through integer pixel indices, which alone puts "
     "centres up to ~1.1 px from the true edge); it is 'well inside' when its centre is more than 2 px inside I; feature-info "
     "clicks are judged inside / outside at 1 px. Everything between is don't-care.",
     "clear obligation: alpha 0 (responses with alpha) or exactly the BGCOLOR (png without alpha) or within 56 levels of the "
@@ -952,7 +952,7 @@ FAM_CODE = [f[0] * 4 + f[1] * 2 + f[2] for f in FAMILIES]
 PNG_TOL = 2
 JPEG_TOL = 72          # restricted vs. reference, both jpeg encoded by the server: ringing of a clipped edge inside the MCU
 JPEG_BG_TOL = 56
-CLEAR_PX = 1.5         # pixel CENTRE farther than this from U => the whole pixel lies more than one pixel outside
+CLEAR_PX = 1.75        # pixel CENTRE farther than this from U => the whole pixel (half diagonal 0.71) lies more than one pixel outside
 KEEP_PX = 2.0          # pixel centre deeper than this inside I => must be kept
 JPEG_EXTRA = 2         # extra don't-care pixels around a clip edge in jpeg output
 
